@@ -269,6 +269,37 @@ theorem vhEntry_succ_lt (d m : Nat) (hd : 1 ≤ d) (hm : 0 < m) (depth : Int) (h
   rw [this]
   nlinarith
 
+theorem sum_sq_lt {β : Type} (l : List β) (hl : l ≠ []) (f g : β → ℝ)
+    (h : ∀ p ∈ l, 0 < g p ∧ g p < f p) :
+    ((l.map g).map (fun x => x * x)).sum < ((l.map f).map (fun x => x * x)).sum := by
+  induction l with
+  | nil => exact absurd rfl hl
+  | cons a l ih =>
+    have ha := h a (by simp)
+    have h1 : g a * g a < f a * f a := by nlinarith
+    by_cases hl' : l = []
+    · subst hl'; simpa using h1
+    · have := ih hl' (fun p hp => h p (by simp [hp]))
+      simp only [List.map_cons, List.sum_cons]
+      linarith
+
+/-- `‖Vh‖` strictly decreases with the depth -/
+theorem refineRhs_succ_lt (d m : Nat) (hd : 1 ≤ d) (hm : 0 < m) {δ : ℝ} (hδ : 0 < δ) (h : Nat)
+    (lsvar : List (ℝ × ℝ)) (hne : lsvar ≠ []) (hpos : ∀ p ∈ lsvar, 0 < p.1 ∧ 0 < p.2) :
+    (refineRhs d m δ (h + 1) lsvar : ℝ) < refineRhs d m δ h lsvar := by
+  simp only [refineRhs, norm_real, designVh]
+  apply Real.sqrt_lt_sqrt
+  · apply List.sum_nonneg
+    intro x hx
+    obtain ⟨y, _, rfl⟩ := List.mem_map.mp hx
+    exact mul_self_nonneg y
+  · apply sum_sq_lt lsvar hne
+    intro p hp
+    have h1 := hpos p hp
+    refine ⟨vhEntry_pos d m hd δ _ h1.1 h1.2, ?_⟩
+    have := vhEntry_succ_lt d m hd hm (h : Int) (by positivity) hδ h1.1 h1.2
+    simpa using this
+
 /-! ## the depth gate and the link to `Adaptive.Space.shouldRefine` -/
 
 theorem shouldRefine_gate {α : Type} [RealLike α] [LeB α] (d m : Nat) (δ : α)
